@@ -206,6 +206,17 @@ def gen_file_constant_program(rng):
     """a statically known constant that only the first pass can evaluate (it reads a file), declared
     after items that consume it; mostly without labels, so that the first pass changes nothing else"""
     rules = "#ruledef\n{\n    halt => 0x55\n    emit {v} => 0x10 @ v`8\n    wide {v} => { assert(v < 4), 0x20 }\n    wide {v} => { assert(v >= 4), 0x3000 }\n}\n"
+    if rng.random() < 0.3:
+        # a symbol named like a built-in inclusion function that holds a function: the statically known call
+        # `name(arg)` means the built-in in the resolver, and must mean it in the constant pre-pass too
+        name = rng.choice(["incbin", "incbinstr", "inchexstr"])
+        held, arg = rng.choice([("le", "0x1234"), ("le", "0x12345678"), ("le", "0x1234"), ("strlen", '"ab"'), ("strlen", '"main.asm"'),
+                                ("utf8", '"ab"'), ("f", "8"), ("5", "8"), ("le", '"main.asm"')])
+        lines = ["#fn f(a) => a + 1", "%s = %s" % (name, held), "y = %s(%s)" % (name, arg)]
+        lines.append(rng.choice(["#d16 y`16", "#d y", "    emit y", "#res y > 0 ? 1 : 0"]))
+        if rng.random() < 0.5:
+            lines.insert(rng.randrange(1, len(lines)), rng.choice(["#d8 1", "    halt", "lab:"]))
+        return rules + "\n".join(lines) + "\n"
     cname = rng.choice(["c", "k", "size"])
     uses = ["#res %s" % cname, "#res %s * 2" % cname, "#res %s - %s" % (cname, cname), "#d8 %s" % cname, "    emit %s" % cname,
             "    wide %s" % cname, "#res (%s > 2 ? 1 : 0)" % cname]
@@ -228,6 +239,6 @@ def gen_file_constant_program(rng):
 
 def gen_any(rng):
     r = rng.random()
-    if r < 0.08:
+    if r < 0.1:
         return gen_file_constant_program(rng)
     return gen_block_program(rng) if r < 0.36 else gen_program(rng)
